@@ -6,6 +6,7 @@ import (
 	"go/token"
 	"go/types"
 	"sort"
+	"strings"
 
 	"golang.org/x/tools/go/ssa"
 )
@@ -138,6 +139,51 @@ func checkC13(p *Prog, r *Report) {
 
 	// ---- FIRST-MATCH ----
 	checkFirstMatch(p, r, listMatches, ruleMatches, flagF, flagConsts)
+
+	// ---- PREFIX-STRIP ----
+	r.Rule("C13/PREFIX-STRIP", "in parseFilter the only string surgery on a rule line is strings.TrimPrefix(line, K) dominated by strings.HasPrefix(line, K)==true for the same constant K (the prefix tested is the prefix removed; character-set trims would eat leading '-', '+' or spaces of the name)", 2)
+	pf := anchorFunc(p, r, pkgSender, "", "parseFilter")
+	if pf != nil {
+		n := 0
+		allCalls(pf, func(c ssa.CallInstruction) {
+			f := calleeOf(c)
+			if f == nil || f.Pkg() == nil || f.Pkg().Path() != "strings" {
+				return
+			}
+			name := f.Name()
+			if !strings.HasPrefix(name, "Trim") && !strings.HasPrefix(name, "Cut") && !strings.HasPrefix(name, "Replace") && name != "Fields" && name != "Split" {
+				return
+			}
+			n++
+			ok := false
+			if name == "TrimPrefix" {
+				k, isK := constStr(c.Common().Args[1])
+				line := c.Common().Args[0]
+				ok = isK && HasFact(c, true, func(v ssa.Value) bool {
+					hc, isCall := v.(*ssa.Call)
+					if !isCall || calleeName(hc) != "strings.HasPrefix" {
+						return false
+					}
+					k2, isK2 := constStr(hc.Common().Args[1])
+					return isK2 && k2 == k && hc.Common().Args[0] == line
+				})
+			}
+			r.Cond(ok, "C13/PREFIX-STRIP", "parseFilter → strings."+name, p.Pos(instrPos(c)), "rule text must only lose exactly the prefix that was tested")
+		})
+		// slicing of the line is not expected either
+		for _, b := range pf.Blocks {
+			for _, in := range b.Instrs {
+				if sl, ok := in.(*ssa.Slice); ok {
+					if bt, ok := sl.X.Type().Underlying().(*types.Basic); ok && bt.Kind() == types.String {
+						r.Unk("C13/PREFIX-STRIP", "parseFilter slices the rule line", p.Pos(sl.Pos()), "manual slicing of the rule text: re-read and extend the rule")
+					}
+				}
+			}
+		}
+		if n == 0 {
+			r.Bad("C13/PREFIX-STRIP", "parseFilter strips prefixes", p.Pos(pf.Pos()), "no TrimPrefix found")
+		}
+	}
 
 	// ---- RULES-REACH-SENDER ----
 	r.Rule("C13/RULES-REACH-SENDER", "every production call of (*sender.Transfer).Do passes a rule list derived from sender.RecvFilterList(conn) or from the user's opts.FilterRules(); a nil constant means the user's rules are ignored", 2)
